@@ -184,7 +184,7 @@ def raw_write_discipline(ctx, cfg, body, rule):
     by_bb = {}
     for e in ev:
         by_bb.setdefault(e[0], []).append(e)
-    # dataflow: set of pending governors (None = unowned storage)
+    # dataflow: per governor (None = unowned storage) the difference writes - position advances
     states = {0: {frozenset()}}
     work = [0]
     done = set()
@@ -195,16 +195,16 @@ def raw_write_discipline(ctx, cfg, body, rule):
             if (bb, st) in done:
                 continue
             done.add((bb, st))
-            cur = set(st)
+            cur = dict(st)
             for e in by_bb.get(bb, []):
                 if e[2] == "write":
-                    cur.add(("w", e[3]))
+                    cur[e[3]] = min(cur.get(e[3], 0) + 1, 2)
                 elif e[2] == "inc":
-                    cur.discard(("w", e[3]))
-                elif e[2] in ("foreign", "panic") and cur:
+                    cur[e[3]] = max(cur.get(e[3], 0) - 1, -2)
+                elif e[2] in ("foreign", "panic") and any(v != 0 for v in cur.values()):
                     key = (e[4].bb, e[3])
-                    bad[key] = (e, frozenset(cur))
-            out = frozenset(cur)
+                    bad[key] = (e, frozenset((k, v) for k, v in cur.items() if v != 0))
+            out = frozenset((k, v) for k, v in cur.items() if v != 0)
             for s2 in a.edges.get(bb, []):
                 if a.blocks[s2]["cleanup"]:
                     continue
@@ -216,10 +216,12 @@ def raw_write_discipline(ctx, cfg, body, rule):
         n += 1
     if bad:
         for (bbk, fn), (e, pend) in sorted(bad.items(), key=lambda kv: kv[0][0]):
-            unowned = any(p[1] is None for p in pend)
-            ctx.ob(rule, "%s#%s" % (body["key"], fn), REFUTED,
-                   "%s can unwind while %s" % (fn, "an element already written into storage that no tracked owner releases would be leaked (dropped zero times)" if unowned
-                                               else "a written slot is not yet counted by its owner's position"), at=e[4].at, cfg=cfg)
+            unowned = any(p[0] is None for p in pend)
+            ahead = any(p[1] < 0 for p in pend)
+            why = ("an element already written into storage that no tracked owner releases would be leaked (dropped zero times)" if unowned
+                   else ("the owner's position already counts a slot that is not written yet (drop of uninitialised memory on unwind)" if ahead
+                         else "a written slot is not yet counted by its owner's position (leak on unwind)"))
+            ctx.ob(rule, "%s#%s" % (body["key"], fn), REFUTED, "%s can unwind while %s" % (fn, why), at=e[4].at, cfg=cfg)
     else:
         ctx.ob(rule, body["key"], PROVED, "%d raw element write site(s); each is counted by a live tracked owner before any later call that can run foreign code" % len(writes), at=body["at"], cfg=cfg)
     return len(writes)
